@@ -5,7 +5,7 @@
 Require Import ZArith List String Bool Reals.
 Import ListNotations.
 From GLMV Require Import Expr SemR Cat Comm Chk SpecLinAlg SpecProj SpecGeom.
-From W Require Gen_C09 Gen_C09_LH Gen_C09_ZO Gen_C09_LHZO P_C09 P_C09_lookat P_C09_rigid.
+From W Require Gen_C09 Gen_C09_LH Gen_C09_ZO Gen_C09_LHZO P_C09 P_C09_lookat P_C09_rigid P_C09_t2.
 Local Open Scope string_scope.
 Theorem C09_translate_scale : P_C09.translate_scale_ok. Proof. exact P_C09.translate_scale_def. Qed.
 Theorem C09_rotate_is_right_multiplication_by_rodrigues : P_C09.rotate_ok. Proof. exact P_C09.rotate_def. Qed.
@@ -20,6 +20,8 @@ Theorem C09_lookAt_follows_configured_handedness :
   && P_C09_lookat.same Gen_C09_ZO.catalogue P_C09_lookat.cat "lookAt" "lookAtRH" && P_C09_lookat.same Gen_C09_LHZO.catalogue P_C09_lookat.cat "lookAt" "lookAtLH"
   && P_C09_lookat.same Gen_C09_ZO.catalogue P_C09_lookat.cat "lookAtLH" "lookAtLH" && P_C09_lookat.same Gen_C09_LHZO.catalogue P_C09_lookat.cat "lookAtRH" "lookAtRH" = true.
 Proof. exact P_C09_lookat.lookAt_dispatch. Qed.
+(* gtx/transform2: 2D / 3D shears, reflections, projections and scaleBias are m times the elementary matrix they name *)
+Theorem C09_gtx_transform2 : P_C09_t2.t2_ok. Proof. exact P_C09_t2.t2_def. Qed.
 (* lookAt is a RIGID transform: orthonormal rows, determinant +1, last row (0,0,0,1), up mapped into the +y half-plane -- for eye <> center and up not
    parallel to the view direction *)
 Theorem C09_lookAtRH_is_rigid : P_C09_rigid.rigid_ok Gen_C09.t_lookAtRH. Proof. exact P_C09_rigid.lookAtRH_rigid. Qed.
